@@ -69,6 +69,9 @@ func (u *controlUnit) cycle(cycle int) {
 		u.msiStatesCopy = u.msi.copyState()
 		u.msi.staleState = false
 		// Return to simulate that it takes a cycle to sync the MSI state
+		// Nothing is pushed in this cycle: the runners pushed before are no longer
+		// forwarding candidates in the next one
+		u.pushedRunnersInPreviousCycle = nil
 		return
 	}
 
